@@ -9,6 +9,7 @@ of honest keypers, keys messages carrying correct keys, and the keyper's own tri
 import Shutter.Properties.C01
 import Shutter.Model.Net
 import Shutter.Drive.EpochKG
+import Shutter.Proofs.AccessNode
 
 open Polynomial
 
@@ -490,5 +491,81 @@ theorem C03_open_finding_witness :
     (runNode Drive.EpochKG.modOps openVerify 3 2 {} [.shares (openMsg 1), .own (openMsg 0)]).rows.length = 2 ∧
     (runNode Drive.EpochKG.modOps openVerify 3 2 {} [.own (openMsg 0), .shares (openMsg 1)]).keys.length = 1 := by
   decide
+
+/-! ### the access node
+
+"… and for Gnosis the access node, accepts."  The access node validates against an in-memory store filled by its
+chain sync (`Model/AccessNode.lean`); the sync keeps announcing things while keys are being released: a successor
+keyper set long before its activation block, its eon key once generated, older sets on an initial sync. -/
+
+section AccessNode
+open Shutter.AccessNode
+
+/-- **Any chain-sync history.**  After any sequence of key and keyper-set announcements, the verdict on a keys
+    message is the verdict under the eon key and the keyper set *last announced for the message's own eon* —
+    nothing announced for another eon, before or after, has any part in it. -/
+theorem C03_accessnode_sync_history (inst max : Nat) (s : Store) (evs : List AccessNode.Ev) (m : Msg) :
+    validate inst max (s.run evs) m =
+      validateWith inst max (lastKey evs m.eon (s.keys.get m.eon)) (lastSet evs m.eon (s.sets.get m.eon)) m := by
+  rw [validate_eq, run_keys_get, run_sets_get]
+
+/-- announcements for other eons leave every verdict on this eon as it was -/
+theorem C03_accessnode_other_eons (inst max : Nat) (s : Store) (evs : List AccessNode.Ev) (m : Msg)
+    (h : ∀ ev ∈ evs, ev.eon ≠ m.eon) :
+    validate inst max (s.run evs) m = validate inst max s m := by
+  rw [C03_accessnode_sync_history, lastKey_other _ _ _ h, lastSet_other _ _ _ h, validate_eq]
+
+/-- **An honest keys message is accepted, whatever else the sync has delivered.**  Once the eon key `k` and the
+    keyper set `ks` of the message's eon have been announced, a message of the node's instance with between one
+    and the maximum number of keys, valid under `k`, with the Gnosis extra, and with a genuine threshold of
+    signatures of `ks` (C06) is accepted after any further announcements for other eons. -/
+theorem C03_accessnode_accepts (inst max : Nat) (s : Store) (evs : List AccessNode.Ev) (m : Msg) (k ks : Nat)
+    (hk : s.keys.get m.eon = some k) (hs : s.sets.get m.eon = some ks)
+    (hother : ∀ ev ∈ evs, ev.eon ≠ m.eon)
+    (hinst : m.inst = inst) (heon : m.eon ≤ maxInt64) (h1 : 1 ≤ m.nkeys) (hmax : m.nkeys ≤ max)
+    (hkeys : m.keysOK k = true) (hbasic : m.basic = true) (hsigs : m.sigsOK ks = true) :
+    validate inst max (s.run evs) m = true := by
+  rw [C03_accessnode_other_eons _ _ _ _ _ hother]
+  unfold validate
+  rw [hk, hs]
+  simp only [hinst, ne_eq, not_true_eq_false, if_false, hkeys, hbasic, Bool.not_true, Bool.false_eq_true]
+  rw [if_neg (by omega), if_neg (by omega), if_neg (by omega)]
+  exact hsigs
+
+/-- without the eon key or without the keyper set of its eon nothing is accepted -/
+theorem C03_accessnode_needs_both (inst max : Nat) (s : Store) (m : Msg) (h : validate inst max s m = true) :
+    (∃ k, s.keys.get m.eon = some k ∧ m.keysOK k = true) ∧ (∃ ks, s.sets.get m.eon = some ks ∧ m.sigsOK ks = true) := by
+  rw [validate_eq] at h
+  unfold validateWith at h
+  cases hk : s.keys.get m.eon with
+  | none => rw [hk] at h; simp at h
+  | some k =>
+    cases hs : s.sets.get m.eon with
+    | none => rw [hk, hs] at h; simp at h
+    | some ks =>
+      rw [hk, hs] at h
+      simp only [] at h
+      have hko : m.keysOK k = true := by
+        cases hx : m.keysOK k with
+        | true => rfl
+        | false => rw [hx] at h; simp at h
+      have hsg : m.sigsOK ks = true := by
+        cases hx : m.sigsOK ks with
+        | true => rfl
+        | false => rw [hx] at h; simp at h
+      exact ⟨⟨k, rfl, hko⟩, ⟨ks, rfl, hsg⟩⟩
+
+/-- non-vacuity: set and key of eon 3, then a successor set for eon 4 announced, then its key: a message of eon 3
+    is accepted all along, one of eon 4 only once both are there -/
+example :
+    let m3 : Msg := { inst := 5, eon := 3, nkeys := 2, basic := true, keysOK := fun k => k == 0, sigsOK := fun s => s == 0 }
+    let m4 : Msg := { inst := 5, eon := 4, nkeys := 2, basic := true, keysOK := fun k => k == 1, sigsOK := fun s => s == 1 }
+    validate 5 500 (({} : Store).run [.set 3 0, .key 3 0, .set 4 1]) m3 = true ∧
+    validate 5 500 (({} : Store).run [.set 3 0, .key 3 0, .set 4 1]) m4 = false ∧
+    validate 5 500 (({} : Store).run [.set 3 0, .key 3 0, .set 4 1, .key 4 1]) m4 = true ∧
+    validate 5 500 (({} : Store).run [.set 3 0, .key 3 0, .set 4 1, .key 4 1]) m3 = true := by
+  decide
+
+end AccessNode
 
 end Shutter.Properties.C03
